@@ -1,16 +1,25 @@
 (* C04 — dense-time offline robustness equals the dense-time STL semantics.
 
-   Full statement (decided by the correspondence check harness/c04.py against
-   the tick semantics DenseSem.rhoZ, for every generated specification and
-   signal set):
+   Full statement:
        forall p W t, dstart W p <= t ->
-         den (evaluate p W) t = rhoZ W tend p t   /\  stamps non-decreasing
+         den (evaluate p W) t = rhoZ W tend p t   /\  stamps increasing
          /\ first stamp = dstart W p.
 
-   Proved here, for all inputs (C04_partial: the merge that every binary
-   operator, comparison, since and until goes through; the sliding-window
-   algorithms of the bounded operators are covered by the correspondence
-   check only):
+   Proved here for the model DenseVisitor.deval of the whole visitor (every
+   operator the dense-time offline monitor supports; compared list for list
+   with evaluate() by the check harness/c04.py):
+   - C04_visitor: for every supported, well-formed formula and all strictly
+     increasing non-empty input signals that start at time 0, the list built
+     by the visitor is strictly increasing, starts at 0 and denotes rhoZ at
+     every tick.  This includes the sliding-window algorithms of the bounded
+     operators (stack of pieces = upper / lower envelope: DenseWinCorrect.v,
+     DenseWinFut.v) and the decompositions used for bounded since / until
+     (DenseTimedLaws.v).
+   - C04_untimed: for formulas without bounded operators the same holds for
+     signals that start anywhere (result starts at dstart W p).
+   The hypothesis "signals start at 0" of C04_visitor cannot be dropped: the
+   bounded operators assume it (known finding KF-C04-late-start, witness
+   C04_late_start_refuted).
    - C04_merge: on strictly increasing sample lists the 13-case Allen-relation
      merge of intersection.py (model DenseMerge.isect, compared with
      intersection() itself by the check) never reaches its 'Unexpected case'
@@ -18,10 +27,9 @@
      exactly t |-> f (s1 t) (s2 t) on the common domain and is undefined
      before it.
    - C04_merge_starts_at_common_domain: the first stamp of the result is the
-     later of the two first stamps.
-   - C04_untimed: the whole visitor, for the untimed fragment, computes rhoZ. *)
+     later of the two first stamps. *)
 From Coq Require Import List ZArith Lia.
-From RV Require Import Val Syntax Rho Dense DenseSem DenseMerge DenseMergeCorrect DenseEval DenseEvalCorrect DenseEvalMain ExtZ.
+From RV Require Import Val Syntax Rho Dense DenseSem DenseMerge DenseMergeCorrect DenseEval DenseEvalCorrect DenseWin DenseVisitor DenseEvalMain ExtZ.
 Import ListNotations.
 Local Open Scope Z_scope.
 
@@ -45,10 +53,24 @@ Theorem C04_merge_starts_at_common_domain :
 Proof. exact (fun VS f s1 s2 out => isect_start f s1 s2 out). Qed.
 Print Assumptions C04_merge_starts_at_common_domain.
 
-(* the visitors of the untimed fragment (variables, constants, arithmetic, comparisons, Boolean operators, unbounded
-   once / historically / since / eventually / always / until): the list they build (model DenseEval.deval, compared list-for-list
-   with evaluate() by the check) is strictly increasing, starts at the start of the domain of the formula and denotes
-   the tick semantics there.  SubNeg: the comparison visitors compute -(l - r) where the semantics says r - l. *)
+(* the whole visitor: every supported operator, bounded ones included; all input signals start at time 0.
+   SubNeg: the comparison visitors compute -(l - r) where the semantics says r - l. *)
+Theorem C04_visitor :
+  forall (VS : Val) (AR : Arith VS), (forall l r, neg (a2 AR Sub l r) = a2 AR Sub r l) ->
+  forall (W : list dsig) (tend : Z), 0 <= tend ->
+    (forall s, In s W -> dsorted s /\ s <> [] /\ (forall a v, In (a, v) s -> a <= tend)) ->
+    (forall s, In s W -> start s = 0) ->
+  forall p, dfrag p = true -> wf_bounds p = true -> (nvars p <= length W)%nat ->
+    exists s, deval AR p W = Some s /\ dsorted s /\ s <> [] /\ start s = 0 /\
+      forall t, den_opt s t = if t <? 0 then None else Some (rhoZ AR (fun _ _ => PStd) W tend p t).
+Proof.
+  intros VS AR SN W tend Ht HW H0 p Hf Hb Hn.
+  destruct (deval_correct AR SN W tend Ht HW p Hf Hb (or_intror H0) Hn) as (s & E & G).
+  rewrite (dstart0 W p H0 Hn) in G. exists s. split; [exact E|exact G].
+Qed.
+Print Assumptions C04_visitor.
+
+(* formulas without bounded operators: signals may start anywhere, the result starts at the start of the domain of the formula *)
 Theorem C04_untimed :
   forall (VS : Val) (AR : Arith VS), (forall l r, neg (a2 AR Sub l r) = a2 AR Sub r l) ->
   forall (W : list dsig) (tend : Z), 0 <= tend ->
@@ -58,7 +80,7 @@ Theorem C04_untimed :
       forall t, den_opt s t = if t <? dstart W p then None else Some (rhoZ AR (fun _ _ => PStd) W tend p t).
 Proof.
   intros VS AR SN W tend Ht HW p Hu Hn.
-  destruct (deval_correct AR SN W tend Ht HW p Hu Hn) as (s & E & G). exists s. split; [exact E|exact G].
+  destruct (deval_correct AR SN W tend Ht HW p (untimed_dfrag p Hu) (untimed_wf p Hu) (or_introl Hu) Hn) as (s & E & G). exists s. split; [exact E|exact G].
 Qed.
 Print Assumptions C04_untimed.
 
@@ -76,6 +98,19 @@ Example C04_untimed_since_until_nonvacuous :
   let p : @formula ExtZVal := Until (Pred CGeq (Var 0) (Const (Fin 2))) (Since (Var 1) (Pred CLt (Var 1) (Var 0))) in
   untimed p = true /\ deval ExtZArith p W = Some [(2, Fin 1); (4, Fin (-1)); (9, Fin 0)].
 Proof. cbv zeta. split; vm_compute; reflexivity. Qed.
+
+Example C04_visitor_nonvacuous :
+  let W : list (@dsig ExtZVal) := [[(0, Fin 3); (4, Fin 1); (9, Fin 5)]; [(0, Fin 2); (4, Fin 2); (6, Fin 0)]] in
+  let p : @formula ExtZVal := UntilT 1 3 (OnceT 1 2 (Pred CGeq (Var 0) (Const (Fin 2)))) (AlwT 0 2 (SinceT 0 3 (Var 1) (Pred CLt (Var 1) (Var 0)))) in
+  dfrag p = true /\ wf_bounds p = true /\ (forall s, In s W -> start s = 0) /\
+  deval ExtZArith p W = Some [(0, NegInf); (1, Fin 1); (3, Fin 0); (5, Fin (-1)); (10, Fin 0)].
+Proof. cbv zeta. split; [reflexivity|]. split; [reflexivity|]. split; [intros s [<-|[<-|[]]]; reflexivity|]. vm_compute. reflexivity. Qed.
+
+(* the hypothesis of C04_visitor is needed: with a signal that starts at 2, once[1,2] x starts at 0 (KF-C04-late-start) *)
+Example C04_late_start_refuted :
+  exists (W : list (@dsig ExtZVal)) (p : @formula ExtZVal) s,
+    dfrag p = true /\ wf_bounds p = true /\ deval ExtZArith p W = Some s /\ start s <> dstart W p.
+Proof. exists [[(2, Fin 1); (5, Fin 0)]], (OnceT 1 2 (Var 0)). eexists. split; [reflexivity|]. split; [reflexivity|]. split; [vm_compute; reflexivity|]. cbn. lia. Qed.
 
 Example C04_nonvacuous :
   let s1 : @dsig ExtZVal := [(0, Fin 3); (4, Fin 1); (9, Fin 5)] in
